@@ -27,6 +27,21 @@ func init() {
 	register("C01", "other", func(a *Analysis, r *Report, t string) { a.CheckC01(r) })
 	register("C02", "other", func(a *Analysis, r *Report, t string) { a.CheckC02(r) })
 	register("C03", "proof", func(a *Analysis, r *Report, t string) { a.CheckC03(r, t) })
+	register("C04", "proof", func(a *Analysis, r *Report, t string) { a.CheckC04(r) })
+	register("C05", "other", func(a *Analysis, r *Report, t string) { a.CheckC05(r) })
+	register("C06", "proof", func(a *Analysis, r *Report, t string) { a.CheckC06(r) })
+	register("C07", "proof", func(a *Analysis, r *Report, t string) { a.CheckC07(r) })
+	register("C08", "other", func(a *Analysis, r *Report, t string) { a.CheckC08(r) })
+	register("C09", "proof", func(a *Analysis, r *Report, t string) { a.CheckC09(r) })
+	register("C10", "proof", func(a *Analysis, r *Report, t string) { a.CheckC10(r) })
+	register("C17", "proof", func(a *Analysis, r *Report, t string) { a.CheckC17(r) })
+	register("C18", "proof", func(a *Analysis, r *Report, t string) { a.CheckC18(r) })
+	register("C11", "proof", func(a *Analysis, r *Report, t string) { a.CheckC11(r) })
+	register("C12", "other", func(a *Analysis, r *Report, t string) { a.CheckC12(r) })
+	register("C19", "proof", func(a *Analysis, r *Report, t string) { a.CheckC19(r) })
+	register("C20", "proof", func(a *Analysis, r *Report, t string) { a.CheckC20(r, t) })
+	register("C15", "proof", func(a *Analysis, r *Report, t string) { a.CheckC15(r) })
+	register("C16", "proof", func(a *Analysis, r *Report, t string) { a.CheckC16(r) })
 }
 
 func main() {
